@@ -44,15 +44,40 @@ func runC32(c *Ctx) {
 		a := CallArgs(w)
 		ok := false
 		why := "path is not built by path.Join"
-		if jc, _, isCall := CallResult(a[0]); isCall && ToFn(pathJoin)(jc) {
+		checkPath := func(v ssa.Value) bool {
+			jc, _, isCall := CallResult(v)
+			if !isCall || !ToFn(pathJoin)(jc) {
+				return false
+			}
 			el := VarargElems(jc.Common().Args[0])
 			why = "path.Join arguments are not (dirs.SnapshotsDir, Sprintf(\"%d_%s\", realSetID, …))"
 			if len(el) == 2 && VGlobal(gSnapshotsDir)(el[0]) {
 				if sc, _, isS := CallResult(el[1]); isS && ToFn(sprintf)(sc) {
 					f, _ := ConstString(sc.Common().Args[0])
 					vel := VarargElems(sc.Common().Args[1])
-					ok = f == "%d_%s" && len(vel) == 2 && IsParam(vel[0], unpack, 2)
+					return f == "%d_%s" && len(vel) == 2 && IsParam(vel[0], unpack, 2)
 				}
+			}
+			return false
+		}
+		ok = checkPath(a[0])
+		if hc, hi, isCall := CallResult(a[0]); !ok && isCall && hi == 0 {
+			// the path computed by a private helper: every path it returns is built that way
+			if h := hc.Common().StaticCallee(); h != nil && h.Pkg == unpack.Pkg && len(h.Blocks) > 0 {
+				liftCtx = append(liftCtx, liftFrame{h, hc})
+				n := 0
+				ok = true
+				for _, lf := range ReturnLeaves(h, 0) {
+					if s, isC := ConstString(lf.Val); isC && s == "" {
+						continue // returned next to an error
+					}
+					n++
+					if !checkPath(lf.Val) {
+						ok = false
+					}
+				}
+				ok = ok && n > 0
+				liftCtx = liftCtx[:len(liftCtx)-1]
 			}
 		}
 		c.Check(ok, fmt.Sprintf("backend.unpackVerifySnapshotImport#write-path#%d", i+1), w.Pos(), "the created path is path.Join(dirs.SnapshotsDir, \"<realSetID>_<suffix>\")", why)
